@@ -77,7 +77,7 @@ def validity_checks(rep, g, N, effs, tagp):
             if a == elsigner:
                 seen_prev = True
                 continue
-            if a[0] == 'repeat' and const_int(a[1]) == 0:
+            if is_zero_bytes(a):
                 seen_zero = True
                 continue
             return False
@@ -100,7 +100,12 @@ def validity_checks(rep, g, N, effs, tagp):
         if not gs or not some:
             rep.bad('C03.R1', '%s:loop:%s' % (g.entry, name.split(' ')[0]), 'in-loop guard missing: ' + name, entry_id(g))
             continue
-        after = g.nodes_of(g.states_after_edges(edges(some), (), edges(gs)))
+        # the pulls that hand an element to the checks (a second, lagging walk over the same vector that only supplies the
+        # predecessor's key - `once(zero).chain(keys).zip(signers)` - reaches the checks through the element pull, never directly)
+        se = edges(some)
+        gnodes = set((cid, bb) for cid, bb, _ in edges(gs))
+        direct = [e_ for e_ in se if gnodes & g.nodes_of(g.states_after_edges([e_], (), [x for x in se if x != e_]))]
+        after = g.nodes_of(g.states_after_edges(direct or se, (), edges(gs)))
         rep.check(not (after & enodes), 'C03.R1', '%s:loop:%s' % (g.entry, name.split(' ')[0]),
                   'every iteration over the candidate signers that leads to a rotation write passes: ' + name, entry_id(g))
     # the weight sum fails (does not wrap, does not saturate) on overflow: the add is checked and its None/overflow edge cannot reach a write
